@@ -1058,6 +1058,32 @@ pub fn run(o: &Opts) -> i32 {
             }
         }
     }
+    // the same for credentials: a custom credential built through the public API with the type values of the defined credential
+    // types (basic = 1, x509 = 2), 0 and real custom values — whatever the encoder produces must decode to the same value
+    {
+        use mls_rs::identity::{Credential, CredentialType, CustomCredential};
+        use mls_rs::mls_rs_codec::{MlsDecode, MlsEncode};
+        for t in [0u16, 1, 2, 3, 0xf000, 0xffff] {
+            for data in [vec![], vec![5u8], vec![1u8, 0], rng.bytes(7)] {
+                let c = Credential::Custom(CustomCredential::new(CredentialType::new(t), data.clone()));
+                st.cases += 1;
+                match std::panic::catch_unwind(|| c.mls_encode_to_vec()) {
+                    Err(_) => st.fail(format!("encoding a custom credential of type {t} panics")),
+                    Ok(Err(_)) => {
+                        *st.outcomes.entry("custom-credential-encode:refused".into()).or_default() += 1;
+                    }
+                    Ok(Ok(b)) => {
+                        *st.outcomes.entry("custom-credential-encode:ok".into()).or_default() += 1;
+                        match Credential::mls_decode(&mut &*b) {
+                            Ok(q) if q == c && q.mls_encode_to_vec().ok().as_deref() == Some(&b[..]) => {}
+                            Ok(_) => st.fail(format!("a custom credential of type {t} (data {}) decodes to a different credential", hex(&data))),
+                            Err(_) => st.fail(format!("the encoder produced a custom credential of type {t} (data {}) that the decoder refuses", hex(&data))),
+                        }
+                    }
+                }
+            }
+        }
+    }
     let rows = qa.finish();
     println!("rows {rows}");
     println!("cases {}", st.cases);
